@@ -5,8 +5,9 @@
     validated by an exhaustive method x caller-kind enumeration on the real byte code
     (Model/AuthCheck.v part B), NOT proved.
     Only statements here; proofs are in Proofs/Auth.v and Proofs/AuthMonitor.v. *)
-From Teleport Require Import Base.Bytes Base.Outcome Model.Auth Model.AuthCheck Proofs.Auth Proofs.AuthMonitor.
-From Teleport Require Gen.SysAbiGen.
+From Teleport Require Import Base.Bytes Base.Outcome Model.Auth Model.AuthCheck Proofs.Auth Proofs.AuthBranches Proofs.AuthMonitor
+     Proofs.AuthMonitorMeaning.
+From Teleport Require Gen.SysAbiGen Gen.ModCallsGen.
 
 Section C06.
   Variables (D HD PK AK : Type).               (* lower state, header, rest of MsgRecvPacket / MsgAcknowledgement *)
@@ -95,6 +96,33 @@ Section C06.
       apply other_chain_addr_listed in Ho. congruence.
   Qed.
 
+  (** Revocation: after the LAST registration of [a] — one that does not list chain [c] — whatever [a] was
+      registered for before and whatever happened since, every UpdateClient for [c] and every RecvPacket from
+      [c] signed by [a] is rejected. *)
+  Theorem C06_revocation : forall (pre : list op) o (post : list op) s0 a x c,
+    reg_effect D HD PK AK bech32_ok o = Some (a, x) ->
+    (forall o', In o' post -> registers D HD PK AK bech32_ok o' a = false) ->
+    ~ In c (r_chains x) ->
+    let s := run (pre ++ o :: post) s0 in
+    (forall m, um_signer HD m = a -> um_chain HD m = c -> snd (step s (OUpdate D HD PK AK m)) = false) /\
+    (forall m, rm_signer PK m = a -> rm_src PK m = c -> snd (step s (ORecv D HD PK AK m)) = false).
+  Proof.
+    intros pre o post s0 a x c E Hp Hn s. apply C06_no_cross_chain.
+    intros y Hy. unfold s in Hy. rewrite (C06_registry_last_write pre o post s0 a x E Hp) in Hy.
+    inversion Hy; subst. exact Hn.
+  Qed.
+
+  (** Conversely the relayer check is the ONLY thing the authorization layer adds to a client update: an
+      UpdateClient is accepted IF AND ONLY IF the signer's record lists the chain, the client exists, CheckMsg
+      passes (TSS: canonical signer = TssAddress) and the light client accepts the header; the new state is
+      the old one with the lower layer's new state (registry and acknowledgement log untouched). *)
+  Theorem C06_update_exact : forall s m s',
+    handle_update D HD PK AK canon L s m = Ok s' <->
+    auth_relayer (reg D s) (um_chain HD m) (um_signer HD m) = true /\
+    exists c d', client_of L (low D s) (um_chain HD m) = Some c /\ check_msg canon c (um_signer HD m) = true /\
+      lo_update D HD PK AK L (low D s) (um_chain HD m) (um_header HD m) = Ok d' /\ s' = set_low D s d'.
+  Proof. exact (handle_update_exact D HD PK AK canon L). Qed.
+
   (** ** tss_recv_ack_signer *)
   (** For a TSS-secured counterparty [c] with configured address [a]: a client update is accepted
       only from the account [a] (canonical form of msg.Signer), a receive of a packet from [c] and
@@ -144,6 +172,51 @@ Section C06.
     handle_recv D HD PK AK L s m = Ok s' -> lo_recv D HD PK AK L (low D s) m = Ok d1 ->
     rm_dst PK m = self_chain L d1 -> exists a, wlog D s' = wlog D s ++ [wack_of PK m a].
   Proof. exact (handle_recv_self_writes D HD PK AK L). Qed.
+
+
+  (** ** The three acknowledgement-writing branches of RecvPacket, exactly *)
+  (** An accepted RecvPacket is EXACTLY one of: (1) packet for this chain, CallPacket(onRecvPacket)
+      returned an error => acknowledgement (1, "", "receive packet callback failed", relayer, fee option);
+      (2) packet for this chain, callback returned (code, result, message) => acknowledgement
+      (code, result, message, relayer, fee option); (3) destination chain unknown => acknowledgement
+      (1, "", "dstChain not found", relayer, fee option); (4) relayed onwards, no acknowledgement —
+      where in ALL of them [relayer] is the address looked up for (packet source, msg.Signer), the
+      registry is untouched and the log grows by exactly that acknowledgement ([recv_outcome]).  Both
+      directions: nothing else is accepted, and each of these is. *)
+  Theorem C06_recv_exact : forall s m s',
+    handle_recv D HD PK AK L s m = Ok s' <->
+    exists d1 relayer,
+      tss_signer_ok D HD PK AK L (low D s) (rm_src PK m) (rm_signer PK m) = true /\
+      lo_recv D HD PK AK L (low D s) m = Ok d1 /\
+      other_chain_addr (reg D s) (rm_src PK m) (rm_signer PK m) = Ok (Some relayer) /\
+      recv_outcome D HD PK AK L s m d1 relayer s'.
+  Proof. exact (handle_recv_exact D HD PK AK L). Qed.
+
+  (** ... and in each branch that writes one, the acknowledgement's Relayer is that looked-up address
+      and its fee option the packet's; nothing else of registry / log changes. *)
+  Theorem C06_recv_branch_relayer : forall s m d1 relayer s',
+    recv_outcome D HD PK AK L s m d1 relayer s' ->
+    (wlog D s' = wlog D s /\ reg D s' = reg D s) \/
+    exists a, wlog D s' = wlog D s ++ [wack_of PK m a] /\ reg D s' = reg D s /\
+              ack_relayer a = relayer /\ ack_fee a = rm_fee PK m.
+  Proof. exact (recv_outcome_ack D HD PK AK L). Qed.
+
+  (** ** Every acknowledgement ever written *)
+  (** After ANY history: every acknowledgement in the log that was not there initially was written by
+      an ACCEPTED RecvPacket of that history, for exactly that packet, with the packet's fee option, and
+      its Relayer is Addresses[i], i the first index with Chains[i] = packet source, of the record the
+      SUBMITTING signer had at that moment (whatever was re-registered later). *)
+  Theorem C06_every_written_ack : forall (ops : list op) s0 w,
+    In w (wlog D (run ops s0)) ->
+    In w (wlog D s0) \/
+    exists pre m post, ops = pre ++ ORecv D HD PK AK m :: post /\
+      accepted (run pre s0) (ORecv D HD PK AK m) /\
+      justified D PK (run pre s0) m w.
+  Proof. exact (run_wlog_justified D HD PK AK canon fold_eq bech32_ok L). Qed.
+
+  (** The acknowledgement log only grows (no operation rewrites or removes a written acknowledgement). *)
+  Theorem C06_ack_log_grows : forall (ops : list op) s, exists l, wlog D (run ops s) = wlog D s ++ l.
+  Proof. exact (run_wlog_prefix D HD PK AK canon fold_eq bech32_ok L). Qed.
 
   (** ** rejected_unchanged *)
   (** A rejected operation (message rejected for any reason incl. a recovered panic; proposal
@@ -197,9 +270,15 @@ Print Assumptions C06_messages_keep_registry.
 Print Assumptions C06_update_needs_relayer.
 Print Assumptions C06_recv_needs_relayer.
 Print Assumptions C06_no_cross_chain.
+Print Assumptions C06_revocation.
+Print Assumptions C06_update_exact.
 Print Assumptions C06_tss_signer.
 Print Assumptions C06_ack_relayer_field.
 Print Assumptions C06_recv_self_acknowledged.
+Print Assumptions C06_recv_exact.
+Print Assumptions C06_recv_branch_relayer.
+Print Assumptions C06_every_written_ack.
+Print Assumptions C06_ack_log_grows.
 Print Assumptions C06_rejected_unchanged.
 Print Assumptions C06_ack_fee_payee.
 Print Assumptions C06_registry_sorted.
@@ -211,6 +290,49 @@ Theorem C06_monitor_sound : forall ct bt r f k,
   mon_step ct (rdump_of r) (model_obs ct bt r f k) = [].
 Proof. exact monitor_sound. Qed.
 Print Assumptions C06_monitor_sound.
+
+(** ... and an EMPTY verdict of that monitor on an observed step MEANS the clauses of the property for
+    that observation (so a violation on the real code cannot hide behind the monitor): *)
+(** rejected step: observed state (xibc store, contract storage, balances) and registry unchanged *)
+Theorem C06_monitor_rejected_meaning : forall ct before o,
+  mon_step ct before o = [] -> os_class o <> 0%nat ->
+  os_same o = true /\ rdump_eqb before (os_reg o) = true.
+Proof. exact monitor_rejected_meaning. Qed.
+
+(** accepted UpdateClient: the signer's record lists the chain; TSS client => canonical signer = TSS address *)
+Theorem C06_monitor_update_meaning : forall ct before o chain signer,
+  mon_step ct before o = [] -> os_kind o = KUpdate chain signer -> os_class o = 0%nat ->
+  listed before signer chain = true /\
+  (forall a, tss_of (os_facts o) chain = Some a -> canon_f ct signer = a).
+Proof. exact monitor_update_meaning. Qed.
+
+(** accepted RecvPacket: record lists the source; TSS source => signer is the TSS address; a written
+    acknowledgement is this packet's, has its fee option, is the stored one, and its Relayer is
+    Addresses[first i with Chains[i] = source] of the signer's record; none written => not for this chain *)
+Theorem C06_monitor_recv_meaning : forall ct before o signer src dst seq fee,
+  mon_step ct before o = [] -> os_kind o = KRecv signer src dst seq fee -> os_class o = 0%nat ->
+  listed before signer src = true /\
+  (forall a, tss_of (os_facts o) src = Some a -> signer = a) /\
+  match os_ack o with
+  | Some (src', dst', seq', a) =>
+      src' = src /\ dst' = dst /\ seq' = seq /\ ack_fee a = fee /\ os_ack_stored o = true /\
+      registered_addr before signer src = Some (ack_relayer a)
+  | None => dst <> f_self (os_facts o)
+  end.
+Proof. exact monitor_recv_meaning. Qed.
+
+(** accepted Acknowledgement: TSS destination => signer is the TSS address; an observed fee payout went to
+    the first record in store order listing (destination, ack.Relayer up to case) *)
+Theorem C06_monitor_ack_meaning : forall ct before o signer src dst seq oa,
+  mon_step ct before o = [] -> os_kind o = KAck signer src dst seq oa -> os_class o = 0%nat ->
+  (forall t, tss_of (os_facts o) dst = Some t -> signer = t) /\
+  (forall p, os_payee o = Some p ->
+     exists a q, oa = Some a /\ rev_find before dst (ack_relayer a) = Some q /\ p = canon_f ct q).
+Proof. exact monitor_ack_meaning. Qed.
+Print Assumptions C06_monitor_rejected_meaning.
+Print Assumptions C06_monitor_update_meaning.
+Print Assumptions C06_monitor_recv_meaning.
+Print Assumptions C06_monitor_ack_meaning.
 
 (** ** Non-vacuity and documented behaviour, on a concrete instance: lower layers that accept
     everything ([D] = unit), one TSS chain, one light-client chain. *)
@@ -251,6 +373,37 @@ Example C06_nonvacuous :
   map (fun w => ack_relayer (w_ack w)) (wlog unit (fst (ex_step s2 (ex_recv (B "tss-account") (B "tss-chain"))))) = [B "0xT2"].
 Proof. vm_compute. repeat split; reflexivity. Qed.
 
+
+(** Non-vacuity of the ERROR-acknowledgement branches, with registrations whose counterparty address
+    differs from the relayer's own address: lower layers whose destination callback FAILS as a whole
+    for sequence 7 and reports code 2 by value for sequence 8.  alice (counterparty address 0xA1 on
+    eth-chain) submits; packets 7 and 8 are for this chain, packet 9 for a chain without client
+    ("nowhere"), packet 10 is relayed to the TSS chain.  All error acknowledgements name 0xA1 — not
+    "alice" — and C06_every_written_ack's witness exists for each. *)
+Definition ex_lower2 : lower unit unit unit unit :=
+  {| client_of := client_of ex_lower; self_chain := fun _ => B "teleport";
+     lo_update := fun d _ _ => Ok d; lo_recv := fun d _ => Ok d;
+     lo_callback := fun d m => if (rm_seq unit m =? 7)%N then CbFailed unit d
+                               else if (rm_seq unit m =? 8)%N then CbReturned unit d (Some (2%N, [], B "execute transfer data failed"))
+                               else CbReturned unit d (Some (0%N, [], []));
+     lo_write_ack := fun d _ _ => Ok d; lo_ack := fun d _ => Ok d; lo_set_status := fun d _ => Ok d;
+     lo_pay := fun d _ _ => Ok d; lo_on_ack := fun d _ => Ok d |}.
+
+Definition ex_run2 := run unit unit unit unit (fun s => s) ascii_fold_eq (fun _ => true) ex_lower2.
+Definition ex_recv2 dst seq : op unit unit unit unit :=
+  ORecv _ _ _ _ {| rm_signer := B "alice"; rm_src := B "eth-chain"; rm_dst := dst; rm_seq := seq; rm_fee := 1; rm_rest := tt |}.
+
+Example C06_error_ack_branches_nonvacuous :
+  let reg1 := ORegGov unit unit unit unit (B "alice") [B "eth-chain"] [B "0xA1"] in
+  let s := ex_run2 [reg1; ex_recv2 (B "teleport") 7; ex_recv2 (B "teleport") 8; ex_recv2 (B "nowhere") 9;
+                    ex_recv2 (B "tss-chain") 10; ex_recv2 (B "teleport") 11] ex_s0 in
+  map (fun w => (w_seq w, ack_code (w_ack w), ack_message (w_ack w), ack_relayer (w_ack w), ack_fee (w_ack w))) (wlog unit s) =
+  [ (7%N, 1%N, B "receive packet callback failed", B "0xA1", 1%N);
+    (8%N, 2%N, B "execute transfer data failed", B "0xA1", 1%N);
+    (9%N, 1%N, B "dstChain not found", B "0xA1", 1%N);
+    (11%N, 0%N, [], B "0xA1", 1%N) ].
+Proof. vm_compute. reflexivity. Qed.
+
 (** What the code does for a plain (non-TSS) acknowledgement: the signer of the
     MsgAcknowledgement needs NO relayer record — with an EMPTY registry an acknowledgement relayed
     on a non-source chain is accepted from anybody; on the source chain the only registry look-up
@@ -273,4 +426,15 @@ Proof. vm_compute. repeat split; reflexivity. Qed.
     method of the regenerated inventory (Gen/SysAbiGen.v) and names no method that does not exist —
     a method added to (or removed from) an ABI breaks this obligation. *)
 Example C06_abi_classified : abi_classified Gen.SysAbiGen.sys_nonview_methods = true.
+Proof. vm_compute. reflexivity. Qed.
+
+(** The Go side of "only the chain's own modules": the inventory of EVM calls made by the xibc and
+    aggregate keepers, regenerated from the Go source (tools/gotocoq/modcalls -> Gen/ModCallsGen.v).  Every
+    call whose target is the packet contract is made from the xibc packet module address and every call
+    whose target is the endpoint contract from the aggregate module address (the callers the byte code
+    accepts in the enumeration); every method called there is a privileged method of [classification] or a
+    view of the ABI inventory; CallPacket is such a call; the two module accounts differ.  (Which Go functions
+    contain the calls is listed in the generated file and in the evidence, not pinned.) *)
+Example C06_module_calls_ok :
+  modcalls_ok Gen.SysAbiGen.sys_view_methods Gen.ModCallsGen.mod_calls Gen.ModCallsGen.module_addresses = true.
 Proof. vm_compute. reflexivity. Qed.
